@@ -731,7 +731,7 @@ var cmdSpecs = []cmdSpec{
 // baseScenario gives every visible flag a distinct, non-default value (booleans stay false).
 func baseScenario(n *cmdNode) *scenario {
 	s := &scenario{label: "distinct values", vals: map[string]interface{}{}, changed: map[string]bool{}, failOpen: map[string]bool{"/p/missing.txt": true},
-		files: map[string][]string{"/p/ignore.txt": {"t2", "t9", "a b"}}}
+		files: map[string][]string{"/p/ignore.txt": {"t2", "", "t9", "a b"}}}
 	for i, f := range n.visible() {
 		switch f.kind {
 		case "string":
@@ -1022,6 +1022,22 @@ func runCmdScenario(c *core.Ctx, n *cmdNode, s *scenario) cmdRun {
 		}
 		return eval.Tuple{handle(fmt.Sprintf("openfile(%s, flags %#x: not create-and-truncate)", p, fl)), eval.Nil{}}
 	})
+	// a file asked what it is: a regular file (standard input redirected from a file is one; so is every path opened)
+	ext("(*os.File).Stat", func(recv eval.Value, _ []eval.Value) eval.Value {
+		return eval.Tuple{&eval.Handle{Dyn: "fs.FileInfo", Tag: "regular file"}, eval.Nil{}}
+	})
+	for _, n := range []string{"(io/fs.FileInfo).Mode", "(os.FileInfo).Mode"} {
+		ext(n, func(recv eval.Value, _ []eval.Value) eval.Value { return eval.K(0) })
+	}
+	for _, n := range []string{"(io/fs.FileInfo).Size", "(os.FileInfo).Size"} {
+		ext(n, func(recv eval.Value, _ []eval.Value) eval.Value { return eval.K(4096) })
+	}
+	ext("(io/fs.FileMode).IsRegular", func(recv eval.Value, _ []eval.Value) eval.Value { return true })
+	ext("(io/fs.FileMode).IsDir", func(recv eval.Value, _ []eval.Value) eval.Value { return false })
+	// printing the help text is not running the command
+	for _, n := range []string{"(*github.com/spf13/cobra.Command).Help", "(*github.com/spf13/cobra.Command).Usage"} {
+		ext(n, func(recv eval.Value, _ []eval.Value) eval.Value { return eval.Nil{} })
+	}
 	// the name of an opened file is the path it was opened with; the standard streams have their device names
 	ext("(*os.File).Name", func(recv eval.Value, _ []eval.Value) eval.Value {
 		h, ok := unref(recv).(*fileHandle)
@@ -1241,7 +1257,16 @@ func checkCmdContract(c *core.Ctx, rule string, paths ...string) {
 			if i := strings.LastIndex(w.entry, "."); i >= 0 {
 				wantEntry = w.entry[:i] + "." + currentName(c, w.entry[:i], w.entry[i+1:])
 			}
-			if r.calls != 1 || r.entry != wantEntry || strings.Join(r.args, ", ") != strings.Join(w.args, ", ") {
+			// an empty string in a list of names (a blank line of the --ignore file) names no record: a command may pass it
+			// on or leave it out
+			noEmpty := func(args []string) string {
+				j := strings.Join(args, ", ")
+				j = strings.ReplaceAll(j, `[""]`, "[]")
+				j = strings.ReplaceAll(j, `["" `, "[")
+				j = strings.ReplaceAll(j, ` ""]`, "]")
+				return strings.ReplaceAll(j, ` "" `, " ")
+			}
+			if r.calls != 1 || r.entry != wantEntry || noEmpty(r.args) != noEmpty(w.args) {
 				badArgs = append(badArgs, fmt.Sprintf("[%s] want %s(%s); got: %s", sc.label, wantEntry, strings.Join(w.args, ", "), describeCmdRun(r)))
 				continue
 			}
